@@ -56,6 +56,11 @@ class Ctx:
         self.M: Model = get_model(repo)
         self.R: Resolver = get_resolver(self.M)
         self.cache: dict[str, Any] = {}
+        if not getattr(self.M, "_tables_folded", False):
+            from .tablefold import fold_static_tables
+
+            self.M._tables = fold_static_tables(self.M, STATIC_TABLE_CLASSES)  # type: ignore[attr-defined]
+            self.M._tables_folded = True  # type: ignore[attr-defined]
 
     def need_func(self, qual: str) -> Func:
         f = self.M.func(qual, required=True)
@@ -68,6 +73,9 @@ class Ctx:
         ln = getattr(node, "lineno", None) or fn.node.lineno
         return f"{fn.mod.rel}:{ln}"
 
+
+# classes whose bodies fill constant tables from literals (static initialisers); folded by the restricted table folder
+STATIC_TABLE_CLASSES = ["_UmAlQuraYearMonthDayCalculator", "_GJYearMonthDayCalculator", "_IslamicYearMonthDayCalculator", "_PersianYearMonthDayCalculator"]
 
 RuleFn = Callable[[Ctx], RuleResult]
 
